@@ -924,6 +924,14 @@ class FunctionRun:
         """Yield (state, value) pairs; only a call at statement level may fork into a raising path."""
         if isinstance(e, ast.Call):
             return self.call_stmt(e, st)
+        if isinstance(e, ast.Subscript) and isinstance(e.value, ast.Call) and not isinstance(e.slice, ast.Slice):
+            outs = []
+            for x, v in self.call_stmt(e.value, st):
+                if x.flow is None:
+                    key = self.ev(e.slice, x)
+                    v = self.models.get_item(self, x, v, key, e, False)
+                outs.append((x, v))
+            return outs
         return [(st, self.ev(e, st))]
 
     def call_stmt(self, call, st):
@@ -1050,6 +1058,18 @@ class FunctionRun:
                 return Val(TStr, z3.Concat(a.t, b.t))
             if isinstance(a.ty, TList) and isinstance(b.ty, TList):
                 return ops.list_concat(a, ops.coerce(b, a.ty) if a.ty != b.ty else b)
+        if opname == 'Div' and isinstance(a.ty, TList) and a.ty.elem in (TReal, TInt) and ops.is_num(b):
+            # numpy: array / scalar, elementwise.  Division by zero yields nan/inf entries (no exception): recorded as a
+            # side condition that random.choices turns into its ValueError.
+            i = z3.Int(fresh_name('dv'))
+            den = ops.to_real(b)
+            elem = ops.list_arr(a)[i]
+            if a.ty.elem is TInt:
+                elem = z3.ToReal(elem)
+            ty = TList(TReal)
+            out = Val(ty, ty.mk(ops.mk_array(i, elem / den, 'npdiv'), ops.list_len(a)))
+            out.finite_cond = den != 0
+            return out
         if opname == 'Mult' and a.ty is TStr and b.ty is TInt:
             raise Unsupported('string repetition')
         sym = {'Add': '+', 'Sub': '-', 'Mult': '*', 'Div': '/', 'FloorDiv': '//', 'Mod': '%'}.get(opname)
